@@ -222,44 +222,45 @@ theorem ward_leaf_height_zero (p : Nat) (x : Vec) : (featOf p [x]).inertia p = 0
 
 /-- "merging only clusters joined by an edge … each merge is the cheapest admissible one":
     the pair merged by one iteration of `ward` is a live edge of the auxiliary graph, its cost
-    is minimal among all live edges, it is the first such edge, and that cost is the height
-    recorded for the new node. -/
-theorem ward_step_cheapest_edge (p : Nat) (s : WState) (hne : s.edges ≠ []) :
+    is minimal among all live edges, it is the first such edge, the merge is recorded, and the
+    height stored for the new node is `max(cost, height[i], height[j])`. -/
+theorem ward_step_cheapest_edge (p : Nat) (s : WState) (hne : s.sk.edges ≠ []) :
     let m := pickEdge p s
-    let e := s.edges.getD m (0, 0)
-    m < s.edges.length ∧ e ∈ s.edges ∧
-    (∀ e' ∈ s.edges, edgeCost p s e ≤ edgeCost p s e') ∧
-    (∀ i, i < m → edgeCost p s e < edgeCost p s (s.edges.getD i (0, 0))) ∧
-    (wardStep p s).merges = s.merges.push (e.1, e.2, edgeCost p s e) := by
-  have hpos : 0 < s.edges.length := List.length_pos_iff.mpr hne
-  have hsize : ((s.edges.map (edgeCost p s)).toArray).size = s.edges.length := by simp
-  have hcost : ∀ i, i < s.edges.length →
-      ((s.edges.map (edgeCost p s)).toArray).getD i 0 = edgeCost p s (s.edges.getD i (0, 0)) := by
+    let e := s.sk.edges.getD m (0, 0)
+    m < s.sk.edges.length ∧ e ∈ s.sk.edges ∧
+    (∀ e' ∈ s.sk.edges, edgeCost p s e ≤ edgeCost p s e') ∧
+    (∀ i, i < m → edgeCost p s e < edgeCost p s (s.sk.edges.getD i (0, 0))) ∧
+    (wardStep p s).sk = s.sk.step e.1 e.2 ∧
+    (wardStep p s).hs = s.hs.push (max (edgeCost p s e) (max (heightAt s e.1) (heightAt s e.2))) := by
+  have hpos : 0 < s.sk.edges.length := List.length_pos_iff.mpr hne
+  have hsize : ((s.sk.edges.map (edgeCost p s)).toArray).size = s.sk.edges.length := by simp
+  have hcost : ∀ i, i < s.sk.edges.length →
+      ((s.sk.edges.map (edgeCost p s)).toArray).getD i 0 = edgeCost p s (s.sk.edges.getD i (0, 0)) := by
     intro i hi
     simp [Array.getD, List.getD_eq_getElem?_getD, hi]
-  have hm : pickEdge p s < s.edges.length := by
+  have hm : pickEdge p s < s.sk.edges.length := by
     unfold pickEdge
     simp only [hsize]
     exact argminFirst_lt _ _ hpos
-  refine ⟨hm, ?_, ?_, ?_, ?_⟩
+  refine ⟨hm, ?_, ?_, ?_, rfl, ?_⟩
   · simp only [List.getD_eq_getElem?_getD, List.getElem?_eq_getElem hm, Option.getD_some]
     exact List.getElem_mem hm
   · intro e' he'
     obtain ⟨i, hi, rfl⟩ := List.getElem_of_mem he'
-    have h := argminFirst_le (fun e => ((s.edges.map (edgeCost p s)).toArray).getD e 0)
-      ((s.edges.map (edgeCost p s)).toArray).size i (by simpa using hi)
+    have h := argminFirst_le (fun e => ((s.sk.edges.map (edgeCost p s)).toArray).getD e 0)
+      ((s.sk.edges.map (edgeCost p s)).toArray).size i (by simpa using hi)
     have hm' := hm
     unfold pickEdge at hm'
     simp only at h hm'
     rw [hcost _ hm', hcost i hi] at h
     simpa [pickEdge, List.getD_eq_getElem?_getD, hi] using h
   · intro i hi
-    have h := argminFirst_first (fun e => ((s.edges.map (edgeCost p s)).toArray).getD e 0)
-      ((s.edges.map (edgeCost p s)).toArray).size i hi
+    have h := argminFirst_first (fun e => ((s.sk.edges.map (edgeCost p s)).toArray).getD e 0)
+      ((s.sk.edges.map (edgeCost p s)).toArray).size i hi
     have hm' := hm
     unfold pickEdge at hm'
     simp only at h hm'
-    have hi' : i < s.edges.length := lt_trans hi hm
+    have hi' : i < s.sk.edges.length := lt_trans hi hm
     rw [hcost _ hm', hcost i hi'] at h
     exact h
   · simp only [wardStep, mergeInto]
@@ -289,25 +290,23 @@ theorem ward_step_children_leave_graph (edges : List (Nat × Nat)) (i j k : Nat)
   simpa using hne
 
 /-- the new node of a `ward` iteration is numbered after every existing node, its feature is
-    the sum of its two children's features (so its cost/height is the merged within-cluster
+    the sum of its two children's features (so its cost is the merged within-cluster
     sum of squares by `ward_cost_is_merged_wcss`). -/
 theorem ward_step_new_node (p : Nat) (s : WState) :
-    let e := s.edges.getD (pickEdge p s) (0, 0)
+    let e := s.sk.edges.getD (pickEdge p s) (0, 0)
     (wardStep p s).feats.size = s.feats.size + 1 ∧
     (wardStep p s).feats.getD s.feats.size ⟨0, [], []⟩ = (featAt s e.1).add (featAt s e.2) ∧
-    (wardStep p s).edges = stepEdges s.edges e.1 e.2 s.feats.size := by
-  simp [wardStep, mergeInto, Array.getD]
+    (wardStep p s).sk.edges = stepEdges s.sk.edges e.1 e.2 s.sk.size := by
+  simp [wardStep, mergeInto, Array.getD, Skel.step]
 
 /-! ## Cutting the dendrogram -/
 
 /-- `split(k)` cuts exactly `k − nbcc` nodes (`nbcc` = number of trees), whatever ties the
-    heights have, when `k` is between the number of trees and the number of nodes. -/
-theorem split_cut_count (parents : List Nat) (k : Nat) (hk : k ≤ parents.length) :
-    cutCount parents k + ((List.range parents.length).filter
-        (fun v => parents.getD v v == v)).length = max k ((List.range parents.length).filter
-        (fun v => parents.getD v v == v)).length := by
+    heights have, when `k` is between the number of trees and the number of leaves. -/
+theorem split_cut_count (parents : List Nat) (k : Nat) (hk : k ≤ nbLeaves parents)
+    (hV : nbLeaves parents ≤ parents.length) :
+    cutCount parents k + nbTrees parents = max k (nbTrees parents) := by
   unfold cutCount
-  simp only
   omega
 
 /-! ## Non-vacuity -/
@@ -318,10 +317,11 @@ example : mstepL 1 [vecOf [0], vecOf [1], vecOf [2]] [0, 0, 2] 3 = [[1/2], [1], 
   decide +kernel   -- empty cluster 1 gets the global mean
 example : ((featOf 1 [vecOf [0]]).add (featOf 1 [vecOf [1], vecOf [3]])).inertia 1 = 14/3 := by
   decide +kernel
-example : (ward 1 [[0], [1], [3], [7]] [(0, 1), (1, 2), (2, 3)]).merges.toList
-    = [(0, 1, 1/2), (4, 2, 14/3), (5, 3, 115/4)] := by decide +kernel
+example : (ward 1 [[0], [1], [3], [7]] [(0, 1), (1, 2), (2, 3)]).sk.ms = [(0, 1), (4, 2), (5, 3)] ∧
+    (ward 1 [[0], [1], [3], [7]] [(0, 1), (1, 2), (2, 3)]).hs.toList = [0, 0, 0, 0, 1/2, 14/3, 115/4] := by
+  decide +kernel
 example : partition [5, 5, 6, 6, 7, 8, 7, 8, 8] [0, 0, 0, 0, 0, 1/2, 1/2, 2, 10] 2
-    = some [0, 0, 1, 1, 2] := by decide +kernel   -- cut at height 2: three groups
-example : cutCount [5, 5, 6, 6, 7, 8, 7, 8, 8] 4 = 3 := by decide
+    = some [5, 5, 6, 6, 4] := by decide +kernel   -- cut at height 2: three groups (named by their roots)
+example : cutCount [5, 5, 6, 6, 7, 8, 7, 8, 8] 4 = 3 := by decide +kernel
 
 end NipyVerif.C14
